@@ -26,6 +26,26 @@ PAYLOADS = [
 ]
 
 
+class _Boom(object):
+    def __reduce__(self):
+        return (os.mkdir, ("/tmp/%s_dir" % CANARY,))
+
+
+def _pickled():
+    import pickle
+
+    return repr(pickle.dumps(_Boom()))
+
+
+ARGPARSE_ARGS = [
+    "'--x', type=pickle.loads, default=%s, help='x'" % _pickled(),
+    "'--y', type=loads, default=%s, help='y'" % _pickled(),
+    "'--z', type=eval, default='__import__(\"%s\")', help='z'" % CANARY,
+    "'--w', type=str, default=__import__('%s'), help='w'" % CANARY,
+    "'--v', choices=(eval('1'), 2), default=1, help='v'",
+]
+
+
 def doc_shapes(p):
     q = "`%s`" % p
     yield "%s or None" % q
@@ -74,6 +94,9 @@ def main():
                 name = args[0]
                 if CANARY in str(name):
                     events["import_tainted"].append(str(name))
+            elif ev == "pickle.find_class":
+                # unpickling data taken from the analysed text: the data names the callable that is then imported and called
+                events["exec_unclean"].append({"filename": "<pickle>", "source": "pickle.find_class%r" % (tuple(args[:2]),)})
             elif ev in ("subprocess.Popen", "os.system", "os.posix_spawn", "os.exec", "os.fork", "os.spawn", "pty.spawn"):
                 events["spawn"].append("%s %r" % (ev, args[:1]))
             elif ev.startswith("socket.") or ev.startswith("urllib.") or ev.startswith("http."):
@@ -164,9 +187,22 @@ def main():
                 os.unlink(fn_)
                 state["on"] = True
                 state["allowed_write"] = set()
+        # argparse functions whose add_argument calls carry data a parser might be tempted to decode
+        for arg_src in ARGPARSE_ARGS:
+            src = ('def set_cli_args(argument_parser):\n    """\n    Set CLI arguments\n\n    :param argument_parser: argument parser\n    :type argument_parser: ```ArgumentParser```\n\n'
+                   '    :return: argument_parser\n    :rtype: ```ArgumentParser```\n    """\n    argument_parser.description = "d"\n    argument_parser.add_argument(%s)\n    return argument_parser\n' % arg_src)
+            try:
+                calls += 1
+                cdd.argparse_function.parse.argparse_ast(ast.parse(src).body[0])
+            except BaseException:
+                pass
     finally:
         state["on"] = False
         sys.stderr, sys.stdout = real_err, real_out
+    try:  # whatever a violating tree let the payloads create is the harness's to remove
+        os.rmdir("/tmp/%s_dir" % CANARY)
+    except OSError:
+        pass
     ran = os.environ.get("CDDVC_RAN")
     print(json.dumps({"calls": calls, "exec_of_strings": state["n_exec_string"], "events": events, "analysed_module_code_ran": bool(ran)}))
 
